@@ -95,6 +95,12 @@ def run_case(case, ctx):
     ctx.cls("x_dtype=" + xdtype)
     ctx.cls("n_mod_k>=2" if n % k >= 2 else "n_mod_k<2")
     K = "C07/%s/" % strategy
+    from vrt import layouts
+    lay = layouts.pick(sub, 2)
+    X = layouts.relayout(X, lay)
+    via = (sub // 3) % 4 == 0
+    cfg["layout"], cfg["configured_with"] = lay, "set_params" if via else "constructor"
+    ctx.cls("layout=" + lay)
     Xin = pandas.DataFrame(X, columns=["c%d" % i for i in range(d)]) if cls == "frame" else X
     Xk = X.copy()
 
@@ -149,8 +155,10 @@ def run_case(case, ctx):
     mod._randomize_index = randomize
     try:
         numpy.random.seed(rs)
-        m = ConstraintKMeans(n_clusters=k, strategy=strategy, kmeans0=kmeans0, max_iter=max_iter, random_state=rs,
-                             n_init=2)
+        m = layouts.build(ConstraintKMeans, dict(n_clusters=k, strategy=strategy, kmeans0=kmeans0, max_iter=max_iter,
+                                                 random_state=rs, n_init=2), via,
+                          dict(n_clusters=k + 3, strategy="gain" if strategy == "distance" else "distance",
+                               kmeans0=not kmeans0, max_iter=max_iter + 11, n_init=1, balanced_predictions=False))
         if sub % 4 == 1 and n > k:
             # history: the same object was first used with the other family of strategies ('weights') on other
             # rows, then reconfigured with set_params - nothing of that first life may change the sizes
